@@ -556,6 +556,9 @@ func report(pd *PropDef, tier string, agg *aggregate, nItems int, wall time.Dura
 	sort.SliceStable(agg.found, func(i, j int) bool { return len(agg.found[i].Choices) < len(agg.found[j].Choices) })
 	reported := map[string]bool{}
 	emit := func(v *Violation, artefact any) {
+		if v.Property == "" {
+			v.Property = pd.ID
+		}
 		if k := matchKnown(known, v); k != nil {
 			if !knownPrinted[k.Rule+"|"+k.Signature] {
 				knownPrinted[k.Rule+"|"+k.Signature] = true
